@@ -177,7 +177,7 @@ class AuditLog:
                     self.events.append(("open-read", str(path)))
             elif event in ("os.remove", "os.rename", "os.mkdir", "os.rmdir", "os.truncate",
                            "os.symlink", "os.link", "shutil.rmtree", "os.chmod"):
-                self.events.append((event, str(args[0])))
+                self.events.append((event, str(args[0])) + ((str(args[1]),) if event == "os.rename" and len(args) > 1 else ()))
             elif event in ("subprocess.Popen", "os.system", "os.exec", "os.posix_spawn", "os.fork"):
                 self.events.append((event, str(args[:1])))
             elif event in ("socket.connect", "socket.bind", "socket.sendto"):
